@@ -1,5 +1,7 @@
 #![allow(dead_code)]
 mod case;
+mod crash;
+mod damage;
 mod driver;
 mod exec;
 mod findings;
@@ -7,6 +9,7 @@ mod iotrace;
 mod model;
 mod ops;
 mod props;
+mod recover;
 mod runner;
 mod util;
 
